@@ -1,4 +1,5 @@
 import Pyc.Driver.Util
+import Pyc.Driver.Value
 import Pyc.Model.Redeemers
 
 /-! Driver ops of C11 / C12: `ranks`, `sdh.preimage`, `views`, `rd.build` (the whole model pipeline: the `add_*`
@@ -75,7 +76,7 @@ def rdOp (j : Json) : R Op := do
   | "certificate_script" =>
     pure (.certificateScript (← rdScript (← j.getObjVal? "script")) (← rdGetOpt rdTxIn j "ref") (← rdGetOpt rdFresh j "red"))
   | "cert" => pure .cert
-  | "mint" => pure (.mint (← getBytes j "p"))
+  | "mint_set" => pure (.mintSet (← jMultiAsset (← j.getObjVal? "m")))
   | "withdraw" => pure (.withdraw (← getBytes j "a"))
   | "native_script" => pure (.nativeScript (← rdScript (← j.getObjVal? "script")))
   | "output_datum" => pure (.outputDatum (← jPair jBytes jBytes (← j.getObjVal? "d")))
@@ -110,9 +111,10 @@ def rdOptNat : Option Nat → Json
 def handleRedeemers (op : String) (j : Json) : R Json := do
   match op with
   | "ranks" =>
-    -- inputs (any order), mint policies, withdrawal accounts as the builder holds them; queried items
+    -- inputs (any order), the stored mint `[[policy, [[name, qty], …]], …]`, withdrawal accounts as the builder holds
+    -- them; queried items
     let inputs ← jList rdTxIn (← j.getObjVal? "inputs")
-    let mint ← jList jBytes (← j.getObjVal? "mint")
+    let mint ← jMultiAsset (← j.getObjVal? "mint")
     let wdrl ← jList jBytes (← j.getObjVal? "wdrl")
     let net ← getNat j "net"
     let sorted := sortInputs inputs
@@ -122,7 +124,7 @@ def handleRedeemers (op : String) (j : Json) : R Json := do
     pure (Json.mkObj [
       ("sorted", ofList rdOfTxIn sorted),
       ("spend", ofList (fun u => rdOptNat (spendIndex u sorted)) spend),
-      ("mint", ofList (fun h => rdOptNat (mintIndex mint h)) mintq),
+      ("mint", ofList (fun h => rdOptNat (mintIndex (bodyPolicies mint) h)) mintq),
       ("reward", ofList (fun h => rdOptNat (rewardIndex net wdrl h)) rewardq)])
   | "views" =>
     let langs ← jList jNat (← j.getObjVal? "langs")
